@@ -93,7 +93,22 @@ pub fn run(env: &Env) {
             if paths.iter().any(|p| p.is_empty()) || paths.is_empty() { paths = vec![]; }
             let whole: Vec<(String, Value)> = leaf_substitutions().into_iter().map(|(n, x)| (n.to_string(), x)).collect();
             for (n, x) in &whole { let j = x.to_string(); cases.push(Case { case: json!({"f": "json", "s": sn, "kind": kind_name(k), "j": j, "edit": format!("whole value := {}", n)}), class: format!("json:{}:whole", kind_name(k)), bytes: j.len(), count: 0, expect_ok: None }); }
+            // the serde enums: every way of naming a variant the type offers (and some it does not), with and without payload;
+            // whatever decodes is handed to its consumers (verify, proof_verify, blind_proof_verify, to_bytes)
+            if let Some((tag, inner)) = v.as_object().filter(|m| m.len() == 1).and_then(|m| m.iter().next()).map(|(k, x)| (k.clone(), x.clone())) {
+                let mut docs: Vec<(String, Value)> = vec![("honest".into(), v.clone())];
+                for name in ["_Unreachable", "CL03", "BBSplus", "bbsplus", ""] {
+                    for (pn, pay) in [("null", Value::Null), ("honest-payload", inner.clone()), ("empty-array", json!([])), ("empty-object", json!({}))] {
+                        if name == tag && pn == "honest-payload" { continue; }
+                        docs.push((format!("variant {:?} with {}", name, pn), json!({name: pay})));
+                    }
+                    docs.push((format!("bare string {:?}", name), json!(name)));
+                    docs.push((format!("honest plus second key {:?}", name), { let mut m = v.as_object().unwrap().clone(); m.insert(name.to_string(), Value::Null); Value::Object(m) }));
+                }
+                for (n, d) in docs { let j = d.to_string(); cases.push(Case { case: json!({"f": "json_use", "s": sn, "kind": kind_name(k), "j": j, "edit": n}), class: format!("json-use:{}:variant", kind_name(k)), bytes: j.len(), count: 4, expect_ok: None }); }
+            }
             for p in &paths {
+                for (n, x) in leaf_substitutions() { let mut w = v.clone(); set_path(&mut w, p, Some(x)); let j = w.to_string(); if j.len() < 4096 { cases.push(Case { case: json!({"f": "json_use", "s": sn, "kind": kind_name(k), "j": j, "edit": format!("{} := {}", p.join("/"), n)}), class: format!("json-use:{}:leaf", kind_name(k)), bytes: j.len(), count: 4, expect_ok: None }); } }
                 for (n, x) in leaf_substitutions() { let mut w = v.clone(); set_path(&mut w, p, Some(x)); let j = w.to_string(); cases.push(Case { case: json!({"f": "json", "s": sn, "kind": kind_name(k), "j": j, "edit": format!("{} := {}", p.join("/"), n)}), class: format!("json:{}:leaf", kind_name(k)), bytes: j.len(), count: 0, expect_ok: None }); }
                 let mut w = v.clone(); set_path(&mut w, p, None); let j = w.to_string();
                 cases.push(Case { case: json!({"f": "json", "s": sn, "kind": kind_name(k), "j": j, "edit": format!("{} removed", p.join("/"))}), class: format!("json:{}:leaf-removed", kind_name(k)), bytes: j.len(), count: 0, expect_ok: None });
